@@ -268,4 +268,489 @@ theorem num_days_spec (d : Date) (hy1 : -262145 ≤ d.year) (hy2 : d.year ≤ 26
     rw [div100_4]
     omega
 
+
+theorem dby_step (y : Int) : daysBeforeYear (y + 1) = daysBeforeYear y + yearLen y := by
+  unfold daysBeforeYear yearLen
+  have h := isLeap_iff y
+  cases hl : isLeap y
+  · have : ¬ (y % 4 = 0 ∧ (y % 100 ≠ 0 ∨ y % 400 = 0)) := by rw [← h, hl]; simp
+    simp; omega
+  · have := h.mp hl
+    simp; omega
+
+theorem dby_mono (a b : Int) (h : a ≤ b) : daysBeforeYear a + 365 * (b - a) ≤ daysBeforeYear b := by
+  obtain ⟨k, hk⟩ := Int.le.dest h
+  subst hk
+  induction k with
+  | zero => simp
+  | succ n ih =>
+    have := ih (by omega)
+    have hs := dby_step (a + n)
+    have hl := yearLen_ge (a + n)
+    push_cast at *
+    rw [show a + (↑n + 1) = a + ↑n + 1 by omega, hs]
+    omega
+
+/-- weekday from ordinal and flag bits equals the weekday of the day number -/
+theorem weekday_spec (y : Int) (o : Nat) (ho : o < 512) :
+    ((dateOfYo y o).weekday.toNat : Int) = weekdayOf (dayNumYo y o) := by
+  obtain ⟨hy, hord, _, hf, _, _⟩ := dateOfYo_fields y o ho
+  obtain ⟨hf16, hf8, _, hw⟩ := flagsOf_facts y
+  unfold Date.weekday
+  rw [hord]
+  have h8 : (dateOfYo y o).yof % 8 = ((flagsOf y % 8 : Nat) : Int) := by
+    have := hf; push_cast; omega
+  rw [h8]
+  unfold weekdayOf dayNumYo at *
+  generalize daysBeforeYear y = B at *
+  have hb : (((o : Int) + ((flagsOf y % 8 : Nat) : Int)) % 7) = (B + o + 6) % 7 := by omega
+  rw [hb]
+  have h0 : 0 ≤ (B + ↑o + 6) % 7 := Int.emod_nonneg _ (by decide)
+  have h1 : (B + ↑o + 6) % 7 < 7 := Int.emod_lt_of_pos _ (by decide)
+  generalize (B + ↑o + 6) % 7 = w at *
+  obtain ⟨k, hk⟩ := Int.eq_ofNat_of_zero_le h0
+  subst hk
+  simp only [Int.toNat_natCast]
+  have : k < 7 := by omega
+  match k, this with
+  | 0, _ | 1, _ | 2, _ | 3, _ | 4, _ | 5, _ | 6, _ => rfl
+
+
+theorem monthDay_congr (y y' : Int) (o : Nat) (h : isLeap y = isLeap y') :
+    monthOfYo y o = monthOfYo y' o ∧ dayOfYo y o = dayOfYo y' o := by
+  have hm : monthOfYo y o = monthOfYo y' o := by unfold monthOfYo; rw [h]
+  refine ⟨hm, ?_⟩
+  unfold dayOfYo
+  rw [hm, (leap_congr y y' (monthOfYo y' o) 1 h).2.1]
+
+/-- month and day accessors: the unique valid (month, day) with that ordinal -/
+theorem month_day_spec (y : Int) (o : Nat) (ho1 : 1 ≤ o) (ho2 : o ≤ yearLen y) :
+    (dateOfYo y o).month = .ok (monthOfYo y o) ∧ (dateOfYo y o).day = .ok (dayOfYo y o) ∧
+    validYmd y (monthOfYo y o) (dayOfYo y o) = true ∧
+    ordinalOf y (monthOfYo y o) (dayOfYo y o) = o := by
+  have hyl := yearLen_ge y
+  obtain ⟨_, _, hfl, _, hol, _⟩ := dateOfYo_fields y o (by omega)
+  obtain ⟨hf16, hf8, hleap, _⟩ := flagsOf_facts y
+  have hbit : flagsOf y / 8 % 2 = flagsOf y / 8 := by omega
+  have h366 : o = 366 → flagsOf y / 8 % 2 = 0 := by
+    intro h; rw [hbit, hleap]
+    unfold yearLen at ho2
+    cases hl : isLeap y
+    · rw [hl] at ho2; simp at ho2; omega
+    · simp
+  have hfin := mdf_from_ol_fin o (by omega) (flagsOf y) hf16
+  unfold olOk at hfin
+  simp only [decide_eq_true_eq] at hfin
+  obtain ⟨h1, h2, h3, h4, h5⟩ := hfin ho1 h366
+  have hrep := isLeap_repYear y
+  obtain ⟨hm, hd⟩ := monthDay_congr (repYear (flagsOf y)) y o hrep
+  simp only [hm, hd] at h1 h2 h3 h4 h5
+  obtain ⟨hv, hoo, _⟩ := leap_congr (repYear (flagsOf y)) y (monthOfYo y o) (dayOfYo y o) hrep
+  rw [hv] at h2; rw [hoo] at h3
+  have hmdf : (dateOfYo y o).mdf = .ok (monthOfYo y o * 512 + dayOfYo y o * 16 + flagsOf y) := by
+    unfold Date.mdf; rw [hol, hfl, ← hbit]; exact h1
+  refine ⟨?_, ?_, h2, h3⟩
+  · unfold Date.month; rw [hmdf]; dsimp only; congr 1; unfold Mdf.month; omega
+  · unfold Date.day; rw [hmdf]; dsimp only; congr 1; unfold Mdf.day; omega
+
+/-- the calendar form is unique: a valid (month, day) of year `y` is recovered from its ordinal -/
+theorem ymd_unique (y : Int) (m d : Nat) (h : validYmd y m d = true) :
+    monthOfYo y (ordinalOf y m d) = m ∧ dayOfYo y (ordinalOf y m d) = d := by
+  obtain ⟨hf16, _, _, _⟩ := flagsOf_facts y
+  have hb := valid_bounds y m d h
+  have hrep := isLeap_repYear y
+  obtain ⟨hv, hoo, _⟩ := leap_congr (repYear (flagsOf y)) y m d hrep
+  have hfin := monthDay_of_ordinal_fin (flagsOf y) hf16 m (by omega) d (by omega)
+  unfold injOk at hfin
+  simp only [decide_eq_true_eq] at hfin
+  have := hfin (by rw [hv]; exact h)
+  rw [hoo] at this
+  obtain ⟨hm, hd⟩ := monthDay_congr (repYear (flagsOf y)) y (ordinalOf y m d) hrep
+  rw [hm, hd] at this
+  exact this
+
+/-- order of packed words is order of day numbers -/
+theorem order_spec (y1 y2 : Int) (o1 o2 : Nat) (h1 : 1 ≤ o1 ∧ o1 ≤ yearLen y1)
+    (h2 : 1 ≤ o2 ∧ o2 ≤ yearLen y2) :
+    ((dateOfYo y1 o1).yof < (dateOfYo y2 o2).yof ↔ dayNumYo y1 o1 < dayNumYo y2 o2) ∧
+    ((dateOfYo y1 o1).yof = (dateOfYo y2 o2).yof ↔ dayNumYo y1 o1 = dayNumYo y2 o2) := by
+  have hl1 := yearLen_ge y1
+  have hl2 := yearLen_ge y2
+  obtain ⟨hf1, _, _, _⟩ := flagsOf_facts y1
+  obtain ⟨hf2, _, _, _⟩ := flagsOf_facts y2
+  unfold dateOfYo dayNumYo
+  dsimp only
+  rcases Int.lt_trichotomy y1 y2 with hlt | heq | hgt
+  · have hm := dby_mono (y1 + 1) y2 (by omega)
+    have hs := dby_step y1
+    constructor <;> constructor <;> intro h <;> omega
+  · subst heq
+    constructor <;> constructor <;> intro h <;> omega
+  · have hm := dby_mono (y2 + 1) y1 (by omega)
+    have hs := dby_step y2
+    constructor <;> constructor <;> intro h <;> omega
+
+theorem cycle_to_yo_eq (c : Nat) : Date.cycle_to_yo c =
+    if c % 365 < YEAR_DELTAS.getD (c / 365) 0
+    then (c / 365 - 1, c % 365 + 365 - YEAR_DELTAS.getD (c / 365 - 1) 0 + 1)
+    else (c / 365, c % 365 - YEAR_DELTAS.getD (c / 365) 0 + 1) := rfl
+
+theorem leaps_fin : ∀ i < 401, leapsBefore i ≤ leapsBefore (i + 1) ∧ leapsBefore i ≤ 97 ∧
+    leapsBefore (i + 1) - leapsBefore i = (if isLeap i then 1 else 0) := by decide +kernel
+
+theorem cycle_to_yo_spec (c : Nat) (hc : c < 146097) :
+    (Date.cycle_to_yo c).1 < 400 ∧ 1 ≤ (Date.cycle_to_yo c).2 ∧
+    (Date.cycle_to_yo c).2 ≤ 365 + (leapsBefore ((Date.cycle_to_yo c).1 + 1) - leapsBefore (Date.cycle_to_yo c).1) ∧
+    (Date.cycle_to_yo c).1 * 365 + leapsBefore (Date.cycle_to_yo c).1 + (Date.cycle_to_yo c).2 - 1 = c := by
+  rw [cycle_to_yo_eq]
+  have h0 : c / 365 < 401 := by omega
+  have h1 : c / 365 - 1 < 401 := by omega
+  rw [table_yd.2 _ h0, table_yd.2 _ h1]
+  have hL0 : leapsBefore 0 = 0 := by decide
+  have hL400 : leapsBefore 400 = 97 := by decide
+  have f0 := leaps_fin _ h0
+  have f1 := leaps_fin _ h1
+  by_cases hlt : c % 365 < leapsBefore (c / 365)
+  · rw [if_pos hlt]
+    dsimp only
+    have hpos : 1 ≤ c / 365 := by
+      rcases Nat.eq_zero_or_pos (c / 365) with h | h
+      · rw [h, hL0] at hlt; omega
+      · exact h
+    have e : c / 365 - 1 + 1 = c / 365 := by omega
+    rw [e] at f1 ⊢
+    generalize leapsBefore (c / 365) = La at *
+    generalize leapsBefore (c / 365 - 1) = Lb at *
+    omega
+  · rw [if_neg hlt]
+    dsimp only
+    have hne : c / 365 ≠ 400 := by
+      intro h; rw [h, hL400] at hlt; omega
+    generalize leapsBefore (c / 365) = La at *
+    generalize leapsBefore (c / 365 + 1) = Lc at *
+    omega
+
+
+/-- `from_ordinal_and_flags` with the year's own flags is `from_yo_opt` -/
+theorem from_oaf_spec (y : Int) (o : Nat) :
+    Date.from_ordinal_and_flags y o (flagsOf y) =
+      .ok (if MIN_YEAR ≤ y ∧ y ≤ MAX_YEAR ∧ 1 ≤ o ∧ o ≤ yearLen y then some (dateOfYo y o) else none) := by
+  have := ctor_yo' y o
+  unfold Date.from_yo_opt at this
+  rw [from_year_spec] at this
+  exact this
+
+theorem dby_small (i : Nat) (hi : i < 401) : daysBeforeYear i = (i : Int) * 365 + leapsBefore i - 366 := by
+  unfold daysBeforeYear leapsBefore
+  omega
+
+theorem yearLen_mod400 (y : Int) : yearLen (y % 400) = yearLen y := by
+  unfold yearLen; rw [isLeap_mod400]
+
+/-- the day-number constructor: for every `i32` day number -/
+theorem ctor_days' (n : Int) (hn : -2147483648 ≤ n ∧ n ≤ 2147483647) :
+    ∃ r, Date.from_num_days_from_ce_opt n = .ok r ∧
+      (∀ d, r = some d → ∃ y o, d = dateOfYo y o ∧ MIN_YEAR ≤ y ∧ y ≤ MAX_YEAR ∧ 1 ≤ o ∧ o ≤ yearLen y ∧
+        dayNumYo y o = n) ∧
+      (r = none ↔ (n < dayNumYo MIN_YEAR 1 ∨ n > dayNumYo MAX_YEAR 365)) := by
+  unfold Date.from_num_days_from_ce_opt
+  have hMIN : MIN_YEAR = -262143 := rfl
+  have hMAX : MAX_YEAR = 262142 := rfl
+  have hdmin : dayNumYo MIN_YEAR 1 = -95746129 := by decide
+  have hdmax : dayNumYo MAX_YEAR 365 = 95745399 := by decide
+  by_cases hov : n + 365 > 2147483647
+  · have : optI32 (n + 365) = none := by
+      unfold optI32 inI32 I32_MIN I32_MAX
+      have : ¬ (n + 365 ≤ 2147483647) := by omega
+      simp [this]
+    rw [this]
+    refine ⟨none, rfl, ?_, ?_⟩
+    · intro d h; cases h
+    · rw [hdmax]; constructor <;> intro _ <;> first | rfl | omega
+  · have : optI32 (n + 365) = some (n + 365) := by
+      unfold optI32 inI32 I32_MIN I32_MAX
+      have h1 : (-2147483648 ≤ n + 365) := by omega
+      have h2 : (n + 365 ≤ 2147483647) := by omega
+      simp [h1, h2]
+    rw [this]
+    dsimp only
+    generalize hq : (n + 365) / 146097 = q
+    generalize hc : (n + 365) % 146097 = c
+    have hc0 : 0 ≤ c := by rw [← hc]; exact Int.emod_nonneg _ (by decide)
+    have hc1 : c < 146097 := by rw [← hc]; exact Int.emod_lt_of_pos _ (by decide)
+    have hdecomp : n + 365 = 146097 * q + c := by rw [← hq, ← hc]; omega
+    obtain ⟨k, hk⟩ := Int.eq_ofNat_of_zero_le hc0
+    subst hk
+    simp only [Int.toNat_natCast]
+    obtain ⟨s1, s2, s3, s4⟩ := cycle_to_yo_spec k (by omega)
+    generalize Date.cycle_to_yo k = p at *
+    obtain ⟨ym, ord⟩ := p
+    dsimp only at *
+    have hqb : -14700 ≤ q ∧ q ≤ 14700 := by omega
+    rw [ckI32_ok (by omega) (by omega)]
+    dsimp only
+    -- flags of the cycle year are the flags of the year
+    have hymod : (q * 400 + (ym : Int)) % 400 = ym := by omega
+    have hflags : YearFlags.from_year_mod_400 (ym : Int) = flagsOf (q * 400 + ym) := by
+      have := from_year_spec (q * 400 + ym)
+      unfold YearFlags.from_year at this
+      rw [hymod] at this
+      exact this
+    rw [hflags, from_oaf_spec]
+    -- ordinal bound is the year length
+    have hlf := (leaps_fin ym (by omega)).2.2
+    have hyl : yearLen (q * 400 + (ym : Int)) = 365 + (leapsBefore (ym + 1) - leapsBefore ym) := by
+      rw [← yearLen_mod400, hymod, hlf]
+      unfold yearLen; split <;> rfl
+    -- day number of the result
+    have hdn : dayNumYo (q * 400 + (ym : Int)) ord = n := by
+      unfold dayNumYo
+      rw [dby_mod400, hymod, dby_small ym (by omega)]
+      have : (q * 400 + (ym : Int)) / 400 = q := by omega
+      rw [this]
+      have hle := (leaps_fin ym (by omega)).2.1
+      omega
+    refine ⟨_, rfl, ?_, ?_⟩
+    · intro d hd
+      by_cases hcond : MIN_YEAR ≤ q * 400 + ↑ym ∧ q * 400 + ↑ym ≤ MAX_YEAR ∧ 1 ≤ ord ∧ ord ≤ yearLen (q * 400 + ↑ym)
+      · rw [if_pos hcond] at hd
+        exact ⟨_, _, (Option.some.inj hd).symm, hcond.1, hcond.2.1, hcond.2.2.1, hcond.2.2.2, hdn⟩
+      · rw [if_neg hcond] at hd; cases hd
+    · have hord : 1 ≤ ord ∧ ord ≤ yearLen (q * 400 + ↑ym) := ⟨s2, by rw [hyl]; exact s3⟩
+      have hyl2 := yearLen_ge (q * 400 + ↑ym)
+      rw [hdmin, hdmax]
+      constructor
+      · intro h
+        by_cases hcond : MIN_YEAR ≤ q * 400 + ↑ym ∧ q * 400 + ↑ym ≤ MAX_YEAR ∧ 1 ≤ ord ∧ ord ≤ yearLen (q * 400 + ↑ym)
+        · rw [if_pos hcond] at h; cases h
+        · have hy : q * 400 + ↑ym < MIN_YEAR ∨ q * 400 + ↑ym > MAX_YEAR := by
+            by_cases h1 : MIN_YEAR ≤ q * 400 + ↑ym
+            · by_cases h2 : q * 400 + ↑ym ≤ MAX_YEAR
+              · exact absurd ⟨h1, h2, hord.1, hord.2⟩ hcond
+              · right; omega
+            · left; omega
+          unfold dayNumYo at hdn
+          rcases hy with hy | hy
+          · left
+            have hm := dby_mono (q * 400 + ↑ym + 1) MIN_YEAR (by omega)
+            have hs := dby_step (q * 400 + ↑ym)
+            have : daysBeforeYear MIN_YEAR = -95746130 := by decide
+            omega
+          · right
+            have hm := dby_mono (MAX_YEAR + 1) (q * 400 + ↑ym) (by omega)
+            have : daysBeforeYear (MAX_YEAR + 1) = 95745399 := by decide
+            omega
+      · intro h
+        apply ite_neg'
+        intro hcond
+        unfold dayNumYo at hdn
+        rcases h with h | h
+        · have hm := dby_mono MIN_YEAR (q * 400 + ↑ym) hcond.1
+          have : daysBeforeYear MIN_YEAR = -95746130 := by decide
+          omega
+        · have hm := dby_mono (q * 400 + ↑ym + 1) (MAX_YEAR + 1) (by omega)
+          have hs := dby_step (q * 400 + ↑ym)
+          have : daysBeforeYear (MAX_YEAR + 1) = 95745399 := by decide
+          omega
+
+theorem ordinalOf_dec31 (y : Int) : ordinalOf y 12 31 = yearLen y ∧ validYmd y 12 31 = true := by
+  unfold ordinalOf yearLen validYmd monthLen cumDays
+  cases isLeap y <;> simp
+
+theorem succ_spec (y : Int) (o : Nat) (hy : MIN_YEAR ≤ y ∧ y ≤ MAX_YEAR) (ho : 1 ≤ o ∧ o ≤ yearLen y) :
+    Date.succ_opt (dateOfYo y o) =
+      .ok (if o < yearLen y then some (dateOfYo y (o + 1))
+           else if y + 1 ≤ MAX_YEAR then some (dateOfYo (y + 1) 1) else none) := by
+  have hyl := yearLen_ge y
+  obtain ⟨hf16, hf8, hleap, _⟩ := flagsOf_facts y
+  have hD : DATE_MAX_OL = 5856 := rfl
+  have hMIN : MIN_YEAR = -262143 := rfl
+  have hMAX : MAX_YEAR = 262142 := rfl
+  obtain ⟨hyear, _, _, _, _, _⟩ := dateOfYo_fields y o (by omega)
+  have hc : (flagsOf y / 8 : Nat) = (if isLeap y then 0 else 1) := hleap
+  have hylc : yearLen y = 366 - flagsOf y / 8 := by
+    unfold yearLen; rw [hc]; cases isLeap y <;> simp
+  unfold Date.succ_opt
+  rw [hyear]
+  have hol : (dateOfYo y o).yof / 8 % 1024 = (o : Int) * 2 + (flagsOf y / 8 : Nat) := by
+    unfold dateOfYo; dsimp only; omega
+  rw [hol]
+  dsimp only
+  by_cases hlt : o < yearLen y
+  · rw [if_pos hlt, ite_pos' _ _ (by rw [hD]; omega)]
+    have hyo : (dateOfYo y o).yof - (↑o * 2 + ↑(flagsOf y / 8)) * 8 + ((↑o * 2 + ↑(flagsOf y / 8)) * 8 + 16)
+        = y * 8192 + (((o + 1) * 16 + flagsOf y : Nat) : Int) := by
+      unfold dateOfYo; dsimp only; push_cast; omega
+    rw [hyo, from_yof_ok y (o + 1) (flagsOf y) (by omega) (by omega) hf16 hf8 (by intro h; omega)]
+    dsimp only
+    congr 2
+    unfold dateOfYo; congr 1; push_cast; omega
+  · rw [if_neg hlt, ite_neg' _ _ (by rw [hD]; omega)]
+    rw [ckI32_ok (by omega) (by omega)]
+    dsimp only
+    rw [ctor_yo']
+    congr 1
+    have hl1 := yearLen_ge (y + 1)
+    by_cases hmax : y + 1 ≤ MAX_YEAR
+    · rw [if_pos hmax, if_pos ⟨by omega, hmax, by omega, by omega⟩]
+    · rw [if_neg hmax]; apply ite_neg'; intro h; exact hmax h.2.1
+
+theorem pred_spec (y : Int) (o : Nat) (hy : MIN_YEAR ≤ y ∧ y ≤ MAX_YEAR) (ho : 1 ≤ o ∧ o ≤ yearLen y) :
+    Date.pred_opt (dateOfYo y o) =
+      .ok (if 1 < o then some (dateOfYo y (o - 1))
+           else if MIN_YEAR ≤ y - 1 then some (dateOfYo (y - 1) (yearLen (y - 1))) else none) := by
+  have hyl := yearLen_ge y
+  obtain ⟨hf16, hf8, hleap, _⟩ := flagsOf_facts y
+  have hMIN : MIN_YEAR = -262143 := rfl
+  have hMAX : MAX_YEAR = 262142 := rfl
+  obtain ⟨hyear, hord, _, _, _, _⟩ := dateOfYo_fields y o (by omega)
+  unfold Date.pred_opt
+  rw [hyear, hord]
+  dsimp only
+  by_cases hlt : 1 < o
+  · rw [if_pos hlt, ite_pos' _ _ (by omega)]
+    have hyo : (dateOfYo y o).yof - ↑o * 16 + (↑o * 16 - 16) = y * 8192 + (((o - 1) * 16 + flagsOf y : Nat) : Int) := by
+      unfold dateOfYo; dsimp only; push_cast; omega
+    have hc : (flagsOf y / 8 : Nat) = (if isLeap y then 0 else 1) := hleap
+    rw [hyo, from_yof_ok y (o - 1) (flagsOf y) (by omega) (by omega) hf16 hf8 (by intro h; omega)]
+    dsimp only
+    congr 2
+    unfold dateOfYo; congr 1; push_cast; omega
+  · rw [if_neg hlt, ite_neg' _ _ (by omega)]
+    rw [ckI32_ok (by omega) (by omega)]
+    dsimp only
+    rw [ctor_ymd']
+    obtain ⟨h31, hv⟩ := ordinalOf_dec31 (y - 1)
+    congr 1
+    by_cases hmin : MIN_YEAR ≤ y - 1
+    · rw [if_pos hmin, if_pos ⟨hmin, by omega, hv⟩, h31]
+    · rw [if_neg hmin]; apply ite_neg'; intro h; exact hmin h.1
+
+
+theorem date_eq_of_yof (a b : Date) (h : a.yof = b.yof) : a = b := by
+  cases a; cases b; simp_all
+
+theorem succ_ok' (y : Int) (o : Nat) (hy : MIN_YEAR ≤ y ∧ y ≤ MAX_YEAR) (ho : 1 ≤ o ∧ o ≤ yearLen y) :
+    ∃ r, Date.succ_opt (dateOfYo y o) = .ok r ∧
+      (r = none ↔ dateOfYo y o = Date.MAX) ∧
+      (∀ d, r = some d → ∃ y' o', d = dateOfYo y' o' ∧ MIN_YEAR ≤ y' ∧ y' ≤ MAX_YEAR ∧ 1 ≤ o' ∧
+        o' ≤ yearLen y' ∧ dayNumYo y' o' = dayNumYo y o + 1 ∧
+        weekdayOf (dayNumYo y' o') = (weekdayOf (dayNumYo y o) + 1) % 7) := by
+  have hyl := yearLen_ge y
+  have hMIN : MIN_YEAR = -262143 := rfl
+  have hMAX : MAX_YEAR = 262142 := rfl
+  have hmaxdate : Date.MAX = dateOfYo MAX_YEAR 365 := by decide
+  have hylmax : yearLen MAX_YEAR = 365 := by decide
+  refine ⟨_, succ_spec y o hy ho, ?_, ?_⟩
+  · rw [hmaxdate]
+    have hord := order_spec y MAX_YEAR o 365 ho ⟨by omega, by omega⟩
+    have hdate : dateOfYo y o = dateOfYo MAX_YEAR 365 ↔ dayNumYo y o = dayNumYo MAX_YEAR 365 := by
+      have h2 := hord.2
+      constructor
+      · intro h; exact h2.mp (congrArg Date.yof h)
+      · intro h; exact date_eq_of_yof _ _ (h2.mpr h)
+    rw [hdate]
+    unfold dayNumYo
+    by_cases hlt : o < yearLen y
+    · rw [if_pos hlt]
+      constructor
+      · intro h; cases h
+      · intro h
+        exfalso
+        rcases Int.lt_or_le y MAX_YEAR with hy' | hy'
+        · have hm := dby_mono (y + 1) MAX_YEAR (by omega)
+          have hs := dby_step y
+          omega
+        · have : y = MAX_YEAR := by omega
+          subst this; omega
+    · rw [if_neg hlt]
+      by_cases hmax : y + 1 ≤ MAX_YEAR
+      · rw [if_pos hmax]
+        constructor
+        · intro h; cases h
+        · intro h
+          exfalso
+          have hm := dby_mono (y + 1) MAX_YEAR hmax
+          have hs := dby_step y
+          omega
+      · rw [if_neg hmax]
+        have : y = MAX_YEAR := by omega
+        subst this
+        constructor
+        · intro _; congr 1; omega
+        · intro _; rfl
+  · intro d hd
+    by_cases hlt : o < yearLen y
+    · rw [if_pos hlt] at hd
+      refine ⟨y, o + 1, (Option.some.inj hd).symm, hy.1, hy.2, by omega, by omega, ?_, ?_⟩
+      · unfold dayNumYo; push_cast; omega
+      · unfold dayNumYo weekdayOf; push_cast; omega
+    · rw [if_neg hlt] at hd
+      by_cases hmax : y + 1 ≤ MAX_YEAR
+      · rw [if_pos hmax] at hd
+        have hl1 := yearLen_ge (y + 1)
+        have hs := dby_step y
+        refine ⟨y + 1, 1, (Option.some.inj hd).symm, by omega, hmax, by omega, by omega, ?_, ?_⟩
+        · unfold dayNumYo; rw [hs]; push_cast; omega
+        · unfold dayNumYo weekdayOf; rw [hs]; push_cast; omega
+      · rw [if_neg hmax] at hd; cases hd
+
+theorem pred_ok' (y : Int) (o : Nat) (hy : MIN_YEAR ≤ y ∧ y ≤ MAX_YEAR) (ho : 1 ≤ o ∧ o ≤ yearLen y) :
+    ∃ r, Date.pred_opt (dateOfYo y o) = .ok r ∧
+      (r = none ↔ dateOfYo y o = Date.MIN) ∧
+      (∀ d, r = some d → ∃ y' o', d = dateOfYo y' o' ∧ MIN_YEAR ≤ y' ∧ y' ≤ MAX_YEAR ∧ 1 ≤ o' ∧
+        o' ≤ yearLen y' ∧ dayNumYo y' o' = dayNumYo y o - 1) := by
+  have hyl := yearLen_ge y
+  have hMIN : MIN_YEAR = -262143 := rfl
+  have hMAX : MAX_YEAR = 262142 := rfl
+  have hmindate : Date.MIN = dateOfYo MIN_YEAR 1 := by decide
+  have hylmin := yearLen_ge MIN_YEAR
+  refine ⟨_, pred_spec y o hy ho, ?_, ?_⟩
+  · rw [hmindate]
+    have hord := order_spec y MIN_YEAR o 1 ho ⟨by omega, by omega⟩
+    have hdate : dateOfYo y o = dateOfYo MIN_YEAR 1 ↔ dayNumYo y o = dayNumYo MIN_YEAR 1 := by
+      have h2 := hord.2
+      constructor
+      · intro h; exact h2.mp (congrArg Date.yof h)
+      · intro h; exact date_eq_of_yof _ _ (h2.mpr h)
+    rw [hdate]
+    unfold dayNumYo
+    by_cases hlt : 1 < o
+    · rw [if_pos hlt]
+      constructor
+      · intro h; cases h
+      · intro h
+        exfalso
+        have hm := dby_mono MIN_YEAR y hy.1
+        omega
+    · rw [if_neg hlt]
+      by_cases hmin : MIN_YEAR ≤ y - 1
+      · rw [if_pos hmin]
+        constructor
+        · intro h; cases h
+        · intro h
+          exfalso
+          have hm := dby_mono MIN_YEAR y hy.1
+          omega
+      · rw [if_neg hmin]
+        have : y = MIN_YEAR := by omega
+        subst this
+        constructor
+        · intro _; congr 1; omega
+        · intro _; rfl
+  · intro d hd
+    by_cases hlt : 1 < o
+    · rw [if_pos hlt] at hd
+      refine ⟨y, o - 1, (Option.some.inj hd).symm, hy.1, hy.2, by omega, by omega, ?_⟩
+      unfold dayNumYo; omega
+    · rw [if_neg hlt] at hd
+      by_cases hmin : MIN_YEAR ≤ y - 1
+      · rw [if_pos hmin] at hd
+        have hl1 := yearLen_ge (y - 1)
+        have hs := dby_step (y - 1)
+        rw [show y - 1 + 1 = y by omega] at hs
+        refine ⟨y - 1, yearLen (y - 1), (Option.some.inj hd).symm, hmin, by omega, by omega, by omega, ?_⟩
+        unfold dayNumYo; rw [hs]; omega
+      · rw [if_neg hmin] at hd; cases hd
+
 end Chrono.Proofs
